@@ -74,6 +74,46 @@ def generate(tier, seed):
         ad = rnd.choice([adapter_M(lines), adapter_X(adapter_M(lines), "p" + "".join(rnd.choice("ppprf") for _ in range(12)))])
         cases.append(case("twin", sp, ad, "-", steps))
         dist["random"] += 1
+    # hand-assembled contexts: the four section names of an EnforceContext are independent public fields. A model whose
+    # e / e2 sections combine differently (allow-override / deny-override) over the same r, p, m sections: contexts that
+    # differ in ONE section name only must not share a cache slot.
+    m = And(Call("g", V("r", "sub"), V("p", "sub")), Eq(V("r", "obj"), V("p", "obj")), Eq(V("r", "act"), V("p", "act")))
+    m2 = And(Eq(V("r2", "sub"), V("p2", "sub")), Eq(V("r2", "act"), V("p2", "act")))
+    sp4 = ("r=sub,obj,act;r2=sub,obj,act;p=sub,obj,act,eft;p2=sub,obj,act,eft;g=2;e=AO;e2=DO;m={%s};m2={%s}" % (m, m2))
+    lines4 = [["p", "p", "alice", "data1", "read", "allow"], ["p", "p", "bob", "data1", "read", "deny"],
+              ["p", "p2", "bob", "data2", "read", "allow"], ["p", "p2", "alice", "data9", "read", "deny"], ["g", "g", "carol", "alice"]]
+    reqs4 = [["alice", "data1", "read"], ["bob", "data1", "read"], ["carol", "data1", "read"], ["dave", "data1", "read"]]
+    secs = [(rk, pk, ek, mk) for rk in ("r", "r2") for pk in ("p", "p2") for ek in ("e", "e2") for mk in ("m", "m2")]
+    valid = [("r", "p", "e", "m"), ("r", "p", "e2", "m"), ("r2", "p2", "e", "m2"), ("r2", "p2", "e2", "m2")]
+    muts4 = [A("p", "p", ["dave", "data1", "read", "allow"]), R("p", "p", ["alice", "data1", "read", "allow"]),
+             A("p", "p2", ["dave", "data7", "read", "deny"]), A("g", "g", ["dave", "alice"]), R("g", "g", ["carol", "alice"]), "CL", "EE:0", "SV"]
+    dist["ctx4"] = 0
+
+    def block4(order):
+        out = []
+        for c in order:
+            for r in reqs4:
+                out.append(Q_c4(c[0], c[1], c[2], c[3], r))
+        return out
+
+    orders = [valid, valid[::-1], [valid[1], valid[0], valid[3], valid[2]], secs]
+    for od in orders:
+        for mu in [None] + muts4:
+            steps = block4(od) + block4(od)
+            if mu:
+                steps += [mu] + block4(od) + block4(od[::-1])
+            cases.append(case("twin", sp4, adapter_M(lines4), "-", steps))
+            dist["ctx4"] += 1
+    for _ in range(40 if tier == "quick" else 800):
+        steps = []
+        for _ in range(rnd.choice([6, 15, 40])):
+            if rnd.random() < 0.25:
+                steps.append(rnd.choice(muts4))
+            c = rnd.choice(valid) if rnd.random() < 0.8 else rnd.choice(secs)
+            r = rnd.choice(reqs4)
+            steps.append(Q_c4(c[0], c[1], c[2], c[3], r) if rnd.random() < 0.8 else Q_e(r))
+        cases.append(case("twin", sp4, adapter_M(lines4), "-", steps))
+        dist["ctx4"] += 1
     return {
         "cases": cases,
         "exhaustive": False,
@@ -81,7 +121,9 @@ def generate(tier, seed):
                  "mutating surface (%d calls: management, RBAC helpers, clear_policy, load_policy, load_filtered_policy, save_policy, set_model (two models), "
                  "set_adapter, set_role_manager, build_role_links, enable_enforce, set_effector, add_function (overriding a built-in and a g-function), "
                  "auto-save/build/notify toggles), a block of plain and context-qualified requests (each issued twice) before the history and after every call; "
-                 "seeded random interleavings up to length 80, also with failing adapters; Enforcer and CachedEnforcer in lock-step. "
+                 "seeded random interleavings up to length 80, also with failing adapters; a model with allow-override e and deny-override e2 over shared sections "
+                 "queried through hand-assembled EnforceContext values (all 16 combinations of section names, contexts differing in one name only issued "
+                 "back to back); Enforcer and CachedEnforcer in lock-step. "
                  "non-trivial = both a grant and a denial occur" % len(muts)),
         "distribution": dist,
     }
